@@ -1,4 +1,5 @@
-"""C20 - the web service: claimed for the remote-registration gate only (HTTP transport is outside reach).
+"""C20 - the web service: claimed for the remote-registration gate and for the /q/ response (status, body, media type) over a finite
+query x extension pool; every other endpoint and the HTTP transport itself are outside reach.
 
 Decides, for every enable/disable history within the bound, that the gate equals the last call, that a refused
 registration leaves the registry unchanged, and that the Flask endpoints (real blueprint, run *untraced* per path on
@@ -18,8 +19,11 @@ PROPERTY = "C20"
 LEVEL = "model_checking"
 ASSUMPTIONS = [
     "bound: enable/disable histories of length <= 6 (quick) / <= 10 (thorough), starting from the import-time state (disabled)",
-    "claimed for the registration gate clause only; HTTP routing/serialisation by Flask/werkzeug runs untraced on concrete "
-    "request bytes (one real request per explored history), every other HTTP clause of C20 is outside the claim",
+    "claimed for the registration gate clause and the /q/ response clause; HTTP routing/serialisation by Flask/werkzeug runs untraced on concrete "
+    "request bytes (one real request per explored path), the store and cache endpoints of C20 are outside the claim",
+    "/q/ clause: the query and its file extension are chosen by symbolic index from fixed pools (the parser realises symbolic text inside the "
+    "regex engine), the in-process reference is liquer.query.evaluate + state_types.encode_state_data as the statement says; queries or extensions "
+    "outside the pools, request bodies / URL arguments (extra parameters) are outside the claim",
     "registration payloads: a valid serialised command (plain and base64 form), a pickle whose loading has an observable side effect, and B + free symbolic bytes |b|<=2; pickle/marshal internals are C code and are not explored",
 ]
 EXPLANATION = "gate state after a symbolic history == last call; refused registration => status ERROR and registry unchanged"
@@ -148,9 +152,76 @@ def ob_gate_payload(history: List[bool], kind: int, junk: bytes) -> bool:
     return check(ok, "closed")
 
 
+HTTP_BASES = ["greet-x", "greet-x/up", "greet", "num-4", "dct-k", "raw-ab", "boom-1", "greet-x/nosuch", "num-x"]
+HTTP_EXTS = [None, "txt", "json", "html", "md", "csv", "xml", "log", "b", "pickle", "zz9", "TXT", "tar.gz"]
+
+
+def _http_commands():
+    from liquer.commands import first_command, command
+    reset_command_registry()
+
+    @first_command
+    def greet(x="w"):
+        return "Hello, " + x
+
+    @command
+    def up(s):
+        return s.upper()
+
+    @first_command
+    def num(x: int = 1):
+        return x * 2
+
+    @first_command
+    def dct(k="a"):
+        return {k: [1, "é"]}
+
+    @first_command
+    def raw(t="q"):
+        return t.encode() + bytes([0, 255])
+
+    @first_command
+    def boom(x=0):
+        raise ValueError("boom")
+
+
+def ob_http_query(qi: int, ei: int) -> bool:
+    """
+    pre: 0 <= qi < len(HTTP_BASES) and 0 <= ei < len(HTTP_EXTS)
+    post: _
+    """
+    from liquer.query import evaluate
+    from liquer.state_types import encode_state_data
+    base = HTTP_BASES[pick(qi, len(HTTP_BASES))]
+    ext = HTTP_EXTS[pick(ei, len(HTTP_EXTS))]
+    q = base if ext is None else base + "/out." + ext
+    with nt(), quiet():
+        _http_commands()
+        try:
+            # the in-process meaning of the request: evaluate, then serialise in the format given by the file extension
+            st = evaluate(q)
+            b, mimetype, _tid = encode_state_data(st.get(), extension=st.extension)
+            expected = (bytes(b) if not isinstance(b, str) else b.encode("utf-8"), mimetype)
+        except Exception:
+            expected = None
+        c = _client()
+        import io, contextlib
+        with contextlib.redirect_stderr(io.StringIO()):
+            resp = c.get("/liquer/q/" + q)
+        reset_command_registry()
+    if expected is None:
+        return check(resp.status_code >= 400, "failing")       # a failing query never yields a success response
+    return check(resp.status_code == 200 and resp.data == expected[0] and resp.headers.get("Content-Type") == expected[1], "served")
+
+
 def obligations(tier):
     n = 6 if tier == "quick" else 10
     return [
+        Ob("ob_http_query", dict(), timeout=150 if tier == "quick" else 900,
+           bounds="GET /q/<query> of the real Flask blueprint for %d queries (text / int / dict / bytes results, a two-step query, a raising "
+                  "command, an unknown command, an unconvertible argument) x %d file extensions (none, known to MIMETYPES, unknown to it, upper "
+                  "case, double) chosen by symbolic index: status, body bytes and Content-Type equal in-process evaluate + encode_state_data" % (
+                      len(HTTP_BASES), len(HTTP_EXTS))),
     ] + [Ob("ob_gate_payload", dict(maxlen=min(n, 4), kind=k), timeout=150 if tier == "quick" else 900,
             bounds="histories of length <= %d x payload = %s: a closed gate refuses, registers nothing and never decodes" % (
                 min(n, 4), ["valid", "valid base64", "hostile pickle (B form)", "hostile pickle (E form)", "'B' + free bytes |b|<=2 (closed-gate histories only: an open gate hands the bytes to pickle, which is C code)"][k])) for k in range(5)] + [
